@@ -5,6 +5,7 @@ package vsync
 
 import (
 	"sync"
+	"sync/atomic"
 
 	"cuelang.org/go/internal/verif/sched"
 )
@@ -260,7 +261,7 @@ func (w *WaitGroup) Go(f func()) {
 
 type Map struct {
 	real       sync.Map
-	registered bool
+	registered atomic.Bool
 }
 
 var (
@@ -281,17 +282,19 @@ func ResetAllMaps() {
 }
 
 func (m *Map) pt(kind string) {
-	if !m.registered {
+	s := sched.Cur()
+	if s == nil {
+		return // free-running: nothing to record (and nothing to reset later)
+	}
+	if !m.registered.Load() {
 		allMapsMu.Lock()
-		if !m.registered {
-			m.registered = true
+		if !m.registered.Load() {
+			m.registered.Store(true)
 			allMaps = append(allMaps, m)
 		}
 		allMapsMu.Unlock()
 	}
-	if s := sched.Cur(); s != nil {
-		s.Point(&sched.Op{Kind: kind, Obj: m})
-	}
+	s.Point(&sched.Op{Kind: kind, Obj: m})
 }
 func (m *Map) Load(k any) (any, bool) { m.pt("map.load"); return m.real.Load(k) }
 func (m *Map) Store(k, v any)         { m.pt("map.store"); m.real.Store(k, v) }
